@@ -586,5 +586,11 @@ def check(ctx: Ctx) -> None:
     resolve_table(ctx, I)
     collection_table(ctx, I)
     render_reports_resolved(ctx, I)
+    # what render() reports is collected from the expanded copy, and a component's conversion collects every metadata node it meets
+    from ..report import SharedCtx
+    from .c08 import render_uses_copy
+    from .c20 import visitor_table
+    render_uses_copy(SharedCtx(ctx, lambda r: "C10.render" if r == "C08.render" else None), I)
+    visitor_table(SharedCtx(ctx, lambda r: "C10.jsx" if r == "C20.collect" else None), I)
     version_field(ctx)
     init_validation(ctx, I)
